@@ -66,7 +66,7 @@ def run_one(m, tier, all_props):
             p = subprocess.run([os.path.join(VERIF, "check"), pid, tier], env=env, capture_output=True, text=True, timeout=3600)
             outs.append(f"[{pid} exit {p.returncode}] " + "\n".join((p.stdout + p.stderr).strip().splitlines()[:4]))
             if m["kind"] == "break":
-                status = "CAUGHT" if p.returncode == 1 else ("INCONCLUSIVE" if p.returncode == 2 else "MISSED")
+                status = "CAUGHT" if (p.returncode == 1 and "VIOLATION property=" in p.stdout) else ("INCONCLUSIVE" if p.returncode == 2 else "MISSED")
             else:
                 if p.returncode != 0:
                     status = f"FALSE-ALARM({pid})"
